@@ -236,6 +236,9 @@ Proof.
   - cbv zeta.
     eapply (quiet_one false s (upd_proc pid (with_script rest) s) _ pid (ASusp WkStable 0));
       [repeat split | repeat split | reflexivity | repeat split | reflexivity | exact H | quiet_tac].
+  - cbv zeta.
+    eapply (quiet_one false s (upd_proc pid (with_script rest) s) _ pid (ASusp (WkX i ph) (s_nextid (upd_proc pid (with_script rest) s))));
+      [repeat split | repeat split | reflexivity | apply suspend_waitx_lg | reflexivity | exact H | quiet_tac].
 Qed.
 
 Lemma log_wake_quiet : forall pid w g s, halted s = false ->
@@ -518,8 +521,8 @@ Proof.
     pose proof (step_frame_spec _ _ _ _ _ Hsf) as F.
     pose proof (step_frame_ctl cfg f s) as C. rewrite Hsf in C. cbn [snd] in C.
     apply (inv3_effect false two s s' IH0 Hh (frame_step_effect cfg f s s' F Hh) C).
-    destruct (frame_step_bk cfg f s s' F) as [Q|pid q Q|pid c ph Q|pid m Q|pid Q]; rewrite Q; try exact Ish.
-    apply shape_insert; [exact I | exact Ish].
+    destruct (frame_step_bk cfg f s s' F) as [Q|pid q Q|pid c ph Q|pid m Q|pid Q|pid xi ph Q]; rewrite Q; try exact Ish;
+      apply shape_insert; [exact I | exact Ish | exact I | exact Ish].
   - pose proof (task_head_ctl t (set_ready r s)) as C. rewrite Hth in C. cbn [snd] in C.
     pose proof (task_head_bk t (set_ready r s)) as B. rewrite Hth in B. cbn [snd] in B. destruct B as (Q & _).
     assert (I0 : inv3 two (set_ready r s)) by (destruct IH0; constructor; assumption).
